@@ -142,7 +142,14 @@ def normalise_statements(idx, module, stmts, cls=None, depth=3, keep=()):
     def norm(stmts, depth):
         out = []
         for st in stmts:
-            # (1) literal loops
+            # (1) literal loops (`for v in range(k)` with small constant bounds is the literal loop over 0 .. k-1)
+            if isinstance(st, ast.For) and isinstance(st.iter, ast.Call) and isinstance(st.iter.func, ast.Name) and st.iter.func.id == "range" \
+                    and 1 <= len(st.iter.args) <= 2 and not st.iter.keywords \
+                    and all(isinstance(a_, ast.Constant) and isinstance(a_.value, int) and not isinstance(a_.value, bool) for a_ in st.iter.args):
+                lo_, hi_ = (0, st.iter.args[0].value) if len(st.iter.args) == 1 else (st.iter.args[0].value, st.iter.args[1].value)
+                if 0 < hi_ - lo_ <= 8:
+                    st = copy.copy(st)
+                    st.iter = ast.copy_location(ast.Tuple(elts=[ast.copy_location(ast.Constant(value=k_), st.iter) for k_ in range(lo_, hi_)], ctx=ast.Load()), st.iter)
             if isinstance(st, ast.For) and not st.orelse and isinstance(st.iter, (ast.Tuple, ast.List)) and st.iter.elts and len(st.iter.elts) <= 8 \
                     and not any(isinstance(x, (ast.Break, ast.Continue)) for b in st.body for x in ast.walk(b)):
                 # the loop variable(s) must not be assigned in the body, and a tuple target needs literal tuples of the same arity
